@@ -21,10 +21,14 @@ import (
 
 	"github.com/deadsy/sdfx/sdf"
 	v2 "github.com/deadsy/sdfx/vec/v2"
+	"verifharness/exprgen"
 	. "verifharness/kit"
+	"verifharness/sdfgen"
 )
 
-func main() { Main("C04", check) }
+// gen: Generated/SdfExpr.v (newLineInfo, lineInfo.minDistance2, lineInfo.winding translated from the
+// current source; Sdf/GenEqPoly.v, an obligation of Props/C04.v) and the MatrixExpr.v it imports
+func main() { Main("C04", check, exprgen.Gen, sdfgen.Gen) }
 
 const imp = "From Sdfx Require Import Sdf.C04Corr.\nOpen Scope float_scope."
 
@@ -580,6 +584,19 @@ func genNearSplit(rng *Rng, tier string) []poly {
 			ps[i].v = reverse(ps[i].v)
 			ps[i].family += "/cw"
 		}
+	}
+	// steep / shallow edges that END on a split line one ulp away from where they start (bounding box
+	// [0,200]^2, lines at 100 and 49.5): the rounded cut point falls on the line itself; lineClip keeps
+	// it below the larger end coordinate (math.Nextafter), otherwise the cut-off piece runs along the
+	// top/right edge of its cell and the next level drops it
+	pd := math.Nextafter(100, 0)
+	steepV := []v2.Vec{{X: 0, Y: 0}, {X: 200, Y: 0}, {X: 200, Y: 200}, {X: 100, Y: 130}, {X: pd, Y: 10}, {X: 0, Y: 200}}
+	shallowH := []v2.Vec{{X: 0, Y: 0}, {X: 200, Y: 0}, {X: 200, Y: 200}, {X: 80, Y: 100}, {X: 10, Y: pd}, {X: 0, Y: 200}}
+	for _, e := range []struct {
+		n string
+		v []v2.Vec
+	}{{"steepV", steepV}, {"shallowH", shallowH}, {"steepV/T", transpose(steepV)}, {"shallowH/T", transpose(shallowH)}, {"steepV/cw", reverse(steepV)}, {"shallowH/cw", reverse(shallowH)}} {
+		ps = append(ps, poly{name: "edge-ending-on-line/" + e.n, family: "nearsplit/edge-ending-on-line", v: e.v, light: true, mid: true})
 	}
 	return ps
 }
